@@ -4967,7 +4967,8 @@ class TLSConnection(TLSRecordLayer):
         # If we use SessionTicket resumption on client side, there are multiple
         # situations where the server has the option to send new ticket
         for result in self._getMsg(
-                (ContentType.handshake, ContentType.change_cipher_spec),
+                (ContentType.handshake, ContentType.change_cipher_spec)
+                if self._client else ContentType.change_cipher_spec,
                 HandshakeType.new_session_ticket):
             if result in (0, 1):
                 yield result
